@@ -169,15 +169,20 @@ def splitOps (ts : List String) : List (List String) :=
     if t == "|" then ([], p.2 ++ [p.1]) else (p.1 ++ [t], p.2)) ([], [])
   (acc ++ [cur]).filter (fun l => !l.isEmpty)
 
+/-- an operation prefixed with the token `q` (set-up) answers `ok:-:~` without rendering the world -/
 def runOps (w : W) : List (List String) → List String
   | [] => []
   | ts :: rest =>
+    let (quiet, ts) := match ts with
+      | "q" :: r => (true, r)
+      | r => (false, r)
     match parseOp? ts with
     | none => ["bad-op"]
     | some op =>
       match step w op with
       | .error e => ["ERR:" ++ showErr e]
-      | .ok (w', out) => s!"ok:{showOut out}:{renderWorld w'}" :: runOps w' rest
+      | .ok (w', out) =>
+        (if quiet then "ok:-:~" else s!"ok:{showOut out}:{renderWorld w'}") :: runOps w' rest
 
 def handle : List String → Option String
   | "c09" :: "run" :: units :: rest => do
